@@ -221,7 +221,7 @@ func (x *Exec) zero(t types.Type) value {
 		}
 		return s
 	case *types.Chan:
-		return poison{"chan"}
+		return (*chanVal)(nil)
 	case *types.Map:
 		return (*mapVal)(nil)
 	case *types.Signature:
